@@ -58,7 +58,7 @@ class Walk:
         fifo = []          # queued commands in send order: {"ev": toks, "handle": h, "step": i} or {"shutdown": True}
         parked = {}        # client -> toks of the parked call
         for st in self.case.steps:
-            if st.kind in ("ack", "pure", "locks"):
+            if st.kind in ("ack", "pure", "locks", "stress"):
                 continue
             if st.out.startswith("disabled") or st.out.startswith("hang") or not st.snap_text:
                 yield st, pre, pre, fifo, None
@@ -156,6 +156,10 @@ def mon_C02(case):
             if not rec:
                 yield finding("C02", st, f"read of key {k} returned {v}, which no applied write put there", "C02/foreign-or-unwritten-value")
                 continue
+            e = pre["store"].get(k)
+            if e is not None and not readable(e, pre["now"]):
+                why = "soft-deleted" if e["soft"] else "past its deadline"
+                yield finding("C02", st, f"read of key {k} (variant {st.ev.split('#v')[-1] if '#v' in st.ev else '?'}) returned {v} from an entry that is {why}: stale, and the other read variants report absent", "C02/value-of-dead-entry")
             eff = rec[-1][1]
             later = [x for x in overwrites.get(k, []) if eff < x < st.index]
             if later:
@@ -399,6 +403,12 @@ def mon_C09(case):
                 yield finding("C09", st, f"key {k} served {pre['now'] - d} ns after its deadline", "C09/expired-value-served")
             if v == "-" and not expired and not e["soft"] and not pre["shut"]:
                 yield finding("C09", st, f"key {k} hidden although its deadline {d} has not passed (now {pre['now']})", "C09/live-value-hidden")
+        if st.kind == "sweep":
+            for k, e in pre["store"].items():
+                if k not in post["store"] and e["id"] in deadline and not post["shut"]:
+                    d = deadline[e["id"]]
+                    if d is None or pre["now"] <= d:
+                        yield finding("C09", st, f"key {k} was removed by the sweeper although its deadline ({d}) has not passed (now {pre['now']}): hidden by expiry before its time", "C09/live-value-hidden-by-sweep")
         for k, e in post["store"].items():
             if e["id"] in deadline and e["expiry"] != deadline[e["id"]]:
                 yield finding("C09", st, f"stored expiry {e['expiry']} of key {k} differs from the deadline {deadline[e['id']]} implied by the operations", "C09/stored-deadline-wrong")
@@ -827,6 +837,12 @@ def _dispatch(pid):
             for st in case.steps:
                 if st.kind == "pure" and st.toks and st.toks[0] == "ratio" and "mismatch" in st.out:
                     yield finding("C16", st, f"hit ratio after {st.toks[1]} hits and {st.toks[2]} misses: {st.out}", "C16/hit-ratio")
+        for st in case.steps:
+            if st.kind == "stress" and st.out.startswith("violations"):
+                for item in st.out[len("violations "):].split(" ;; "):
+                    sig = item.split(" ")[0]
+                    if sig.startswith(pid + "/"):
+                        yield finding(pid, st, "under free-running threads: " + item, sig)
         if case.hang and pid in ("C13", "C15", "C18"):
             if pid != "C18" or not case.cfg_line:
                 st = case.steps[-1] if case.steps else None
